@@ -105,18 +105,19 @@ func (r *Response) sendBackResponse(
 }
 
 func createSignature(response *Response, samlResponse *samlp.ResponseType, key *rsa.PrivateKey, cert []byte, signatureAlgorithm string) error {
-	switch response.ProtocolBinding {
-	case PostBinding:
-		if err := createPostSignature(samlResponse, key, cert, signatureAlgorithm); err != nil {
-			return fmt.Errorf("failed to sign response: %w", err)
-		}
-	case RedirectBinding:
+	// only a response that is really delivered as a redirect can carry its signature in the query;
+	// everything else (POST form, or the HTTP body when there is no consumer url) needs an enveloped one
+	if response.ProtocolBinding == RedirectBinding && response.AcsUrl != "" {
 		sig, sigAlg, err := createRedirectSignature(samlResponse, key, cert, signatureAlgorithm, response.RelayState)
 		if err != nil {
 			return fmt.Errorf("failed to sign response: %w", err)
 		}
 		response.Signature = sig
 		response.SigAlg = sigAlg
+		return nil
+	}
+	if err := createPostSignature(samlResponse, key, cert, signatureAlgorithm); err != nil {
+		return fmt.Errorf("failed to sign response: %w", err)
 	}
 	return nil
 }
